@@ -184,6 +184,8 @@ func genPowerLoss(prop string) func(r *rng, tier string, res *Result) {
 	return func(r *rng, tier string, res *Result) {
 		n := scale(tier, 40, 600)
 		stats := plStats{}
+		var plCases []*Case
+		var plImpls [][][]string
 		for i := 0; i < n; i++ {
 			g := newG(r.fork(), fmt.Sprintf("%s/%d", prop, i))
 			g.dumpEvery = 0
@@ -206,6 +208,32 @@ func genPowerLoss(prop string) func(r *rng, tier string, res *Result) {
 			if prop == "C09" {
 				// history, Close, then power failures from the return of Close to the completion of the next Open
 				ops := 5 + g.r.intn(40)
+				if i%5 == 4 {
+					// Directed: a session that starts with a recovery which truncates a torn tail of N
+					// bytes and then appends exactly N bytes: the newest segment is back at the length
+					// it had when it was opened, yet all of its tail is new and volatile.
+					g.bigValues = true
+					for j := 0; j < 2+g.r.intn(3); j++ {
+						g.put(g.pick(), g.value())
+					}
+					before := copyMap(g.ref)
+					g.put(g.pick(), g.value())
+					var cands [][2]int
+					for _, p := range g.crashPoints() {
+						if p[1] >= 11 && p[1] <= 400 {
+							cands = append(cands, p)
+						}
+					}
+					if len(cands) > 0 {
+						p := cands[g.r.intn(len(cands))]
+						g.crashLast(before, g.ref, p[0], p[1])
+						refill := []byte{0x61}
+						g.keys = append(g.keys, refill)
+						g.put(refill, g.r.bytes(p[1]-11))
+						g.c.tag("recovery_truncation_refilled_to_the_same_length")
+						ops = 0
+					}
+				}
 				for j := 0; j < ops; j++ {
 					if g.r.chance(70) {
 						g.put(g.pick(), g.value())
@@ -337,13 +365,15 @@ func genPowerLoss(prop string) func(r *rng, tier string, res *Result) {
 					}
 				}
 			}
-			c, _ := g.finish()
-			res.addCase(c)
-			res.Distinct++
+			c, impl := g.finish()
+			plCases = append(plCases, c)
+			plImpls = append(plImpls, impl)
 			if i < 2 {
 				res.sample(c, 25)
 			}
 		}
+		// the histories themselves (every call, every file-system event incl. the Syncs) against the model
+		runCases(res, plCases, plImpls, !noModel)
 		if res.Tags == nil {
 			res.Tags = map[string]int{}
 		}
